@@ -564,6 +564,19 @@ fn directed<const RXSZ: usize>(ctx: &mut Ctx, feats: u64, guest: u64, cap: u32, 
     sim.finish(ctx);
 }
 
+/// several connections at once (same peer, same local port, different peer ports, ...): also run under C17, whose
+/// stream and credit clauses are per connection
+pub fn run_multi(ctx: &mut Ctx) {
+    let all: u64 = (1 << 28) | (1 << 29) | (1 << 32) | (1 << 33);
+    let nh = ctx.budget(6, 10);
+    for h in 0..nh {
+        let f = [0u64, all][(h % 2) as usize];
+        let cap = match h % 3 { 0 => 8, 1 => 64, _ => 1024 };
+        ctx.tr.scenario(&format!("c18-history-h{}-f{}-cap{}", h, h % 2, cap));
+        if h % 2 == 0 { history::<96>(ctx, f, 3, cap, 120); } else { history::<512>(ctx, f, 0x1_0000_0003, cap, 120); }
+    }
+}
+
 pub fn run(ctx: &mut Ctx) {
     let all: u64 = (1 << 28) | (1 << 29) | (1 << 32) | (1 << 33);
     let featsets = [0u64, 1 << 28, 1 << 29, all];
